@@ -41,10 +41,12 @@ def snapshot(tree):
     return leaves, ids
 
 
-def unchanged(tree, snap):
+def unchanged(tree, snap, values_only=False):
     import jax
 
     leaves, ids = snap
+    if values_only:
+        ids = None
     now = [np.asarray(x) for x in jax.tree_util.tree_leaves(tree)]
     if len(now) != len(leaves):
         return f"number of leaves changed {len(leaves)} -> {len(now)}"
@@ -238,7 +240,9 @@ def run_case(ctx, rig, keys, plans, picks, fail, eager_first):
         b.env.reset(envs.make_key((int(keys[0][0]) ^ 0x2222, (int(keys[0][1]) + 1) % 2**32)))
         ctx.evals()
         ctx.count("eager_alias_checks")
-        d = unchanged(s_e, snap_r[0]) or unchanged(ts_e, snap_r[1])
+        # values only: a generator may hand out one cached State object whose fields reset rebinds to equal values
+        # (BinPack's CSVGenerator does) - unobservable, hence not a violation
+        d = unchanged(s_e, snap_r[0], values_only=True) or unchanged(ts_e, snap_r[1], values_only=True)
         if d:
             fail("results.reset.eager", "a later reset call changed the state returned by an earlier one", d)
         for t in range(n_chain):
